@@ -1909,6 +1909,29 @@ class MatlabWrapper(CheckMixin, FormatMixin):
                 with open(path_to_file, 'w', encoding="UTF-8") as f:
                     f.write(c[1])
 
+    def _merge_reopened_namespaces(self, namespace):
+        """
+        Move the content of every later `namespace x { }` block into the first
+        block of that name (same parent), keeping declaration order.
+
+        Otherwise each block wraps its global functions on its own, and the
+        `<name>.m` written for a later block replaces the one of an earlier
+        block which has overloads of the same function.
+        """
+        first_blocks = {}
+        content = []
+        for element in namespace.content:
+            if isinstance(element, parser.Namespace):
+                first = first_blocks.get(element.name)
+                if first is not None:
+                    first.content.extend(element.content)
+                    continue
+                first_blocks[element.name] = element
+            content.append(element)
+        namespace.content = content
+        for block in first_blocks.values():
+            self._merge_reopened_namespaces(block)
+
     def wrap(self, files, path):
         """High level function to wrap the project."""
         content = ""
@@ -1924,6 +1947,10 @@ class MatlabWrapper(CheckMixin, FormatMixin):
 
         # Instantiate the module
         module = instantiator.instantiate_namespace(parsed_result)
+
+        # A namespace may be opened several times (once per interface file,
+        # typically): wrap it as one.
+        self._merge_reopened_namespaces(module)
 
         if module.name in modules:
             modules[
